@@ -135,6 +135,38 @@ sub_mul (Ctx& c, uint64_t idx)
                   [&] { return Obj ().raw ("q1", qjson (q1)).raw ("q2", qjson (q2)).raw ("got", qjson (pe)).kv ("want_slot", (double) ph.c[k]).str (); });
     }
 
+    // the in-place form with the operand aliased to the object itself (q *= q), against the reference square
+    {
+        Q4<H>   sh = hmul (toH (q1), toH (q1));
+        Quat<T> qa = q1;
+        qa *= qa;
+        for (int k = 0; k < 4; ++k)
+        {
+            char s[16];
+            std::snprintf (s, sizeof s, "slot[%d]", k);
+            double r3 = (double) hp::fabs ((H) qa[k] - sh.c[k]) / E<T> ();
+            judge<T> (c, "operator*=(self)", s, r3, tol::product, idx,
+                      [&] { return Obj ().raw ("q", qjson (q1)).raw ("got", qjson (qa)).kv ("want_slot", (double) sh.c[k]).str (); });
+        }
+    }
+    // the mixed operators: q * M is q.toMatrix33() * M and M * q is M * q.toMatrix33() (M = the matrix of q2: the order is observable)
+    {
+        Matrix33<T> A = q1.toMatrix33 (), B = q2.toMatrix33 ();
+        Matrix33<T> qm = q1 * B, mq = B * q1, AB = A * B, BA = B * A;
+        for (int i = 0; i < 3; ++i)
+            for (int j = 0; j < 3; ++j)
+            {
+                double a = std::fabs ((double) qm[i][j] - (double) AB[i][j]) / E<T> ();
+                double b = std::fabs ((double) mq[i][j] - (double) BA[i][j]) / E<T> ();
+                judge<T> (c, "operator*(Quat,Matrix33)", slot2 (i, j).c_str (), a, tol::mulmatrix, idx, [&] {
+                    return Obj ().raw ("q", qjson (q1)).raw ("M_is_matrix_of", qjson (q2)).kv ("(q*M)", (double) qm[i][j]).kv ("q.toMatrix33*M", (double) AB[i][j]).str ();
+                });
+                judge<T> (c, "operator*(Matrix33,Quat)", slot2 (i, j).c_str (), b, tol::mulmatrix, idx, [&] {
+                    return Obj ().raw ("q", qjson (q1)).raw ("M_is_matrix_of", qjson (q2)).kv ("(M*q)", (double) mq[i][j]).kv ("M*q.toMatrix33", (double) BA[i][j]).str ();
+                });
+            }
+    }
+
     // matrix of the product: against the product of the matrices (row-vector convention: M(q1 q2) = M(q2) M(q1))
     // and against the reference matrix of the reference product
     H Mref[3][3];
